@@ -20,6 +20,14 @@ CHECKS = {
          "TLC checks FormsAgree on every transition (each owned/borrowed/assign/scalar/Inv/Sum/Product/mul_add/constant form equals the canonical dual-dual operation with the scalar lifted to a constant); the harness replays each behaviour through exactly the syntactic form named in the event and compares bit-exactly",
          "the list of forms is the one modelled in Calc.tla/Machine.tla; FromPrimitive/FloatConst entry points are checked by the harness table",
          "TLA+ action property FormsAgree (TLC) + per-form replay of TLC-generated behaviours"),
+ "C16": ("model_checking",
+         "TLC enumerates scalar dual types and nestings to depth 3 with distinct part values, checks the model-level round trip and field-name invariants and emits the expected JSON tree; the harness (feature serde) compares serde_json's tree with it (names, nesting, nothing else), round-trips bitwise through the text and deserialises the model tree with permuted key order, on f64 and f32",
+         "serde_json is trusted as the data format; values are finite and exactly representable",
+         "TLA+ tree model (TLC) + conformance of the real serde output against TLC-generated cases"),
+ "C18": ("model_checking",
+         "TLC enumerates types x presence patterns x values and emits the token sequence Display must produce (transcribed from the fmt impls and Derivative::fmt, invariant: every stored scalar of a present part is printed exactly once); the harness formats the real value on every concrete configuration (f32/f64, static/dynamic, nested), tokenises the string and requires identical tokens with every number parsing back to exactly the stored value",
+         "dimensions <= 3; nalgebra's matrix box layout is tokenised, not modelled character by character",
+         "TLA+ token-grammar model (TLC) + conformance of the real Display output against TLC-generated cases"),
 }
 man = {
  "version": 1,
